@@ -142,6 +142,20 @@ def strategy(tier):
     return case_strategy()
 
 
+def enumerate_cases(tier):
+    """one large group: two devices with 4200 eight-byte variables each (the
+    shared map is larger than 64 kB); variables at the beginning, around the
+    32 kB and 64 kB marks and at the end are written on either side"""
+    n = 4200
+    marks = [0, 1, 2047, 2048, 4095, 4096, 4097, n - 2, n - 1]
+    parent = [[i, k, 1000 * i + k + 1] for i in (0, 1) for k in marks]
+    child = [[i, k + 3, -(1000 * i + k + 7)] for i in (0, 1)
+             for k in marks if k + 3 < n]
+    yield {"classes": [["q"] * n], "bases": [None], "offsets": [0],
+           "insts": [0, 0], "parent": parent, "child": child,
+           "parent2": [[1, n - 1, 42]], "veteran": False}
+
+
 SOURCE = '''
 from ebpfcat.ebpfcat import Device, DeviceVar
 
@@ -187,9 +201,12 @@ def run_case(case):
     classes_txt = [f"{len(f)}" for f in classes]
     cls_ = [f"instances={len(insts)}", f"classes={len(classes)}"]
 
+    short = [c if len(c) <= 12 else c[:3] + [f"... {len(c)} variables"]
+             for c in classes]
+
     def fail(what, **kw):
         return dict(ok=False, nontrivial=True, classes=cls_,
-                    what=f"{what}; device classes {classes}, bases {bases}, "
+                    what=f"{what}; device classes {short}, bases {bases}, "
                          f"instances {insts}", **kw)
     proc = None
     try:
@@ -279,7 +296,7 @@ def run_case(case):
     cw = {(i, k) for i, k, v in case["child"]}
     return dict(ok=True,
                 nontrivial=len(insts) >= 2 and bool(pw) and bool(cw - pw),
-                key=repr((classes, bases, insts, sorted(pw), sorted(cw))),
+                key=repr((short, bases, insts, sorted(pw), sorted(cw))),
                 classes=cls_, summary={"vars": len(model)})
 
 
